@@ -182,5 +182,6 @@ func c09L7Round(m *vk.Monitor, r *rand.Rand, round int) {
 }
 
 func c09L7Required() []string {
-	return []string{"L7_roundtrip_answered", "L7_roundtrip_gave_up_or_failed", "L7_gave_up_with_answer_on_the_wire", "L7_upstream_connections"}
+	// L7_gave_up_with_answer_on_the_wire is a narrow timing observation (a handful per run): counted, not required
+	return []string{"L7_roundtrip_answered", "L7_roundtrip_gave_up_or_failed", "L7_upstream_connections"}
 }
